@@ -1,6 +1,6 @@
 //! C18 — reference lookup and iteration match git.
 //!
-//! One sub-check `world`: a repository whose references are written by git (fast-import, pack-refs --all, then
+//! One sub-check `world`: a repository whose references are written by git (fast-import for objects, update-ref --stdin, pack-refs --all, then
 //! update-ref --stdin for loose-only refs and for loose values shadowing now stale packed ones; symbolic refs as
 //! files), compared with git itself:
 //! * `store.iter().all()` and `.prefixed(p)` == `git for-each-ref [p]` as an ordered sequence (name, value, symref),
@@ -283,9 +283,9 @@ fn compare_iteration(
     ))
 }
 
-fn main() {
+pub fn main() {
     let mut ck = Check::new("C18", "exploration");
-    ck.rule("Worlds of 1..40 refs under refs/{heads,tags,remotes/o,notes,x,x-} with 1..3 components from {a,a-,a.b,a0,ab,-,0,x,b,a-b,a+,HEAD} (60 % of worlds) or from {a,b,ab,a0,0,x,z,A,a_} (no byte below '/'), derived from each other (directory sibling with a suffix byte below/above '/', child, sibling); each ref loose, packed, or packed-stale + loose-current; values from 4 commits and 2 annotated tags (peeled lines); 0..3 symbolic refs incl. refs/remotes/o/HEAD (never dangling). Written by git fast-import + pack-refs --all + update-ref --stdin. Queries: all(), 3 prefixes (category directories and parents of refs, with and without trailing '/', one absent), try_find of every name and of absent neighbours, up to 3 short names. Non-trivial: some directory X/ has a sibling X<byte below '/'>.. and some ref is both packed and loose. Distinct by world spec.");
+    ck.rule("Worlds of 1..40 refs under refs/{heads,tags,remotes/o,notes,x,x-} with 1..3 components from {a,a-,a.b,a0,ab,-,0,x,b,a-b,a+,HEAD} (60 % of worlds) or from {a,b,ab,a0,0,x,z,A,a_} (no byte below '/'), derived from each other (directory sibling with a suffix byte below/above '/', child, sibling); each ref loose, packed, or packed-stale + loose-current; values from 4 commits and 2 annotated tags (peeled lines); 0..3 symbolic refs incl. refs/remotes/o/HEAD (never dangling). Written by git fast-import (objects) + update-ref --stdin + pack-refs --all + update-ref --stdin. Queries: all(), 3 prefixes (category directories and parents of refs, with and without trailing '/', one absent), try_find of every name and of absent neighbours, up to 3 short names. Non-trivial: some directory X/ has a sibling X<byte below '/'>.. and some ref is both packed and loose. Distinct by world spec.");
     ck.assume(&format!("oracle: {} for-each-ref (default refname order) and rev-parse --symbolic-full-name", Git::version()));
     ck.assume("prefixes are whole path components (a directory name with or without trailing '/'): for those git's pattern rule (match up to a '/') and gitoxide's documented rule ('refs/heads' is equivalent to 'refs/heads/') coincide; partial-component prefixes are not compared");
     ck.assume("dangling symbolic refs are not generated (git for-each-ref omits them with a warning); for a short name that resolves to a symbolic ref git prints the final target, gitoxide returns the symbolic ref itself: the chain is followed in the harness");
@@ -351,15 +351,6 @@ fn main() {
                 1 + i
             ));
         }
-        // phase 1: everything that ends up packed, with the value it has in packed-refs
-        for r in &spec.refs {
-            let v = match r.place {
-                Place::Loose => continue,
-                Place::Packed => r.value,
-                Place::Both => r.stale,
-            };
-            fi.push_str(&format!("reset {}\nfrom :{}\n", r.name, v + 1));
-        }
         let marks = w.scratch.join("marks");
         infra!(
             c,
@@ -373,7 +364,6 @@ fn main() {
             ),
             "fast-import"
         );
-        infra!(c, git.run(["pack-refs", "--all"]), "pack-refs");
         // object ids of the pool (marks :1..:6)
         let marks = infra!(c, std::fs::read_to_string(&marks), "read marks");
         let mut pool: Vec<String> = vec![String::new(); 6];
@@ -390,6 +380,21 @@ fn main() {
             c.infra(format!("object pool from marks: {marks:?}"));
             return;
         }
+        // phase 1: everything that ends up packed, with the value it has in packed-refs
+        // (update-ref, not fast-import `reset`, which refuses refs to tag objects)
+        let mut first = String::new();
+        for r in &spec.refs {
+            let v = match r.place {
+                Place::Loose => continue,
+                Place::Packed => r.value,
+                Place::Both => r.stale,
+            };
+            first.push_str(&format!("create {} {}\n", r.name, pool[v]));
+        }
+        if !first.is_empty() {
+            infra!(c, git.run_in(["update-ref", "--stdin"], Some(first.as_bytes())), "update-ref (phase 1)");
+        }
+        infra!(c, git.run(["pack-refs", "--all"]), "pack-refs");
         // phase 2: loose refs and loose values over stale packed ones
         let mut upd = String::new();
         for r in &spec.refs {
